@@ -232,12 +232,14 @@ def r4_r5_aggregation(repo, rep, cls):
     rep.undecided('R4/aggregation', f.name, 'no pivot_table call', f.loc())
     return
   n, call = piv
+  POS_ = {'values': 0, 'index': 1, 'columns': 2, 'aggfunc': 3}
+
   def arg(name):
-    v = au.kwarg(call, name)
+    v = au.arg(call, POS_[name], name)
     return norm(rd.expand(n, v)[0]) if v is not None else None
   idx, cols, vals, agg = arg('index'), arg('columns'), arg('values'), arg('aggfunc')
   def argx(name):
-    v_ = au.kwarg(call, name)
+    v_ = au.arg(call, POS_[name], name)
     return rd.expand(n, v_)[0] if v_ is not None else ast.Constant(value=None)
   rep.check_term(idx is not None and 'self._df_names.date' in idx and 'self._df_names.period' in idx and 'group' not in idx and 'geo' not in idx, argx('index'), (),
             'R4/aggregation', 'rows are (date, period)', f.qualname, 'index=%s' % idx, 'pivot index is %s, not (date, period)' % idx, f.loc(call))
